@@ -21,6 +21,25 @@ def _setup_jax(env):
   return jax
 
 
+_MAPS_LIMIT = 20000
+
+
+def _release_compiled_code():
+  """Every compiled XLA CPU program keeps several memory mappings; a worker that compiles thousands of
+  configurations runs into vm.max_map_count (65530) and LLVM aborts ("Unable to allocate section memory").
+  Dropping jax's compilation caches releases them; later calls simply recompile."""
+  try:
+    with open("/proc/self/maps") as f:
+      n = sum(1 for _ in f)
+  except OSError:
+    return
+  if n > _MAPS_LIMIT and "jax" in sys.modules:
+    import gc
+    import jax
+    jax.clear_caches()
+    gc.collect()
+
+
 class Collector:
   """Runs check(case), never lets a failure escape, buckets failures."""
 
@@ -71,6 +90,7 @@ class Collector:
       self.skipped_budget += 1
       return None
     bucket = None
+    _release_compiled_code()
     if self.trace_path:
       try:
         with open(self.trace_path, "w") as f:
